@@ -163,8 +163,10 @@ def run(ctx):
                 payloads.append(T.model_payload(1 if mode == 1 else 2, o, sa, se, mode != 1))
         mouts = ctx.model.call_many(4, payloads) if ctx.model_ok else [None] * len(bcases)
         for idx, ((mode, sa, se, o), mo) in enumerate(zip(bcases, mouts)):
-            refp = os.path.join(tmp, 'ref%d.txt' % idx)
-            actp = os.path.join(tmp, 'act%d.txt' % idx)
+            # a few reference / actual paths are used again and again with new contents (as after regeneration or an
+            # edit of the reference): a verdict is about what the files hold now
+            refp = os.path.join(tmp, 'ref%d.txt' % (idx % 3 if idx % 2 else idx))
+            actp = os.path.join(tmp, 'act%d.txt' % (idx % 3 if idx % 4 == 1 else idx))
             with open(refp, 'w', encoding='utf-8', newline='') as f:
                 f.write(se)
             kw = dict(lstrip=o['lstrip'], rstrip=o['rstrip'], ignore_substrings=o['ignore_substrings'] or None,
